@@ -1,6 +1,7 @@
 package rules
 
 import (
+	"fmt"
 	"go/token"
 	"go/types"
 	"strings"
@@ -843,7 +844,7 @@ func c11Cadence(c *eng.Ctx) {
 			intervalP = prm
 		}
 	}
-	okJ := false
+	okJ, undecidedJ := false, false
 	detail := "no ticker creation found"
 	eng.Instrs(run, func(in ssa.Instruction) {
 		call, ok := in.(*ssa.Call)
@@ -851,62 +852,34 @@ func c11Cadence(c *eng.Ctx) {
 			return
 		}
 		fr, _, isF := eng.LoadedField(call.Call.Value)
-		if !isF || !fr.Is(setecPkg, "Store", "newTicker") || len(call.Call.Args) != 1 {
+		if !isF || !fr.Is(setecPkg, "Store", storeField("newTicker")) || len(call.Call.Args) != 1 {
 			return
 		}
-		// arg = interval + jitter
-		b, isB := eng.Origin(call.Call.Args[0]).(*ssa.BinOp)
-		if !isB || b.Op != token.ADD || eng.Origin(b.X) != ssa.Value(intervalP) {
-			detail = "ticker period is " + eng.ValStr(call.Call.Args[0])
+		// the period as bounds linear in the interval (interval arithmetic over
+		// + - * / by constants, rand.Intn and helpers): any algebraically
+		// equivalent way of writing the jitter is accepted
+		bnd, known := linBounds(call.Call.Args[0], map[*ssa.Parameter]linIv{intervalP: {1, 0, 1, 0}}, 0)
+		if !known {
+			undecidedJ = true
+			detail = "ticker period " + eng.ValStr(call.Call.Args[0]) + " is not an expression of the interval this analysis can bound"
 			return
 		}
-		// jitter = Duration(Intn(A) - B)
-		j, isJ := eng.OriginConv(b.Y).(*ssa.BinOp)
-		if !isJ || j.Op != token.SUB {
-			detail = "jitter is " + eng.ValStr(b.Y)
-			return
-		}
-		rc, _ := eng.TupleCall(j.X)
-		if rc == nil || !eng.CalleeIs(&rc.Call, "math/rand", "Intn") {
-			detail = "jitter is " + eng.ValStr(b.Y)
-			return
-		}
-		// A = 2*int(interval)/10 , B = int(interval)/10
-		tenth := func(v ssa.Value, mult int64) bool {
-			q, ok := eng.Origin(v).(*ssa.BinOp)
-			if !ok || q.Op != token.QUO {
-				return false
-			}
-			if k, isK := eng.ConstInt(q.Y); !isK || k != 10 {
-				return false
-			}
-			num := eng.Origin(q.X)
-			if mult == 1 {
-				return eng.OriginConv(num) == ssa.Value(intervalP)
-			}
-			m, ok := num.(*ssa.BinOp)
-			if !ok || m.Op != token.MUL {
-				return false
-			}
-			k, isK := eng.ConstInt(m.X)
-			if isK && k == mult && eng.OriginConv(m.Y) == ssa.Value(intervalP) {
-				return true
-			}
-			k, isK = eng.ConstInt(m.Y)
-			return isK && k == mult && eng.OriginConv(m.X) == ssa.Value(intervalP)
-		}
-		if tenth(rc.Call.Args[0], 2) && tenth(j.Y, 1) {
+		const eps, slack = 1e-9, 16
+		if bnd.loA >= 0.9-eps && bnd.hiA <= 1.1+eps && bnd.loB >= -slack && bnd.hiB <= slack {
 			okJ = true
 		} else {
-			detail = "jitter is " + eng.ValStr(b.Y)
+			detail = fmt.Sprintf("ticker period ranges over [%.4g*interval%+.0f, %.4g*interval%+.0f]", bnd.loA, bnd.loB, bnd.hiA, bnd.hiB)
 		}
 	})
-	c.Check(okJ, "R-C11-7", run, run.Pos(), "period of the poll ticker", "interval + (rand.Intn(2*interval/10) - interval/10): within +/-10% of the configured interval", detail)
+	if undecidedJ {
+		c.Undecided("R-C11-7", run, run.Pos(), "period of the poll ticker", detail)
+		okJ = true
+	}
+	c.Check(okJ, "R-C11-7", run, run.Pos(), "period of the poll ticker", "within +/-10% of the configured interval for every value the random source can return (as interval + rand.Intn(2*interval/10) - interval/10 is)", detail)
 	if n == 0 {
 		c.Ok("R-C11-7", run, run.Pos(), "Ticker.Reset calls in the client library", "none")
 	}
 }
-
 
 // c11FetchHelper: the conditional request lives in a helper of poll that
 // answers (value, error).  Decided inside it: every request error other than
@@ -985,4 +958,116 @@ func c11FetchHelper(c *eng.Ctx, req *ssa.Call) {
 		}
 		return "with err == nil and differing versions another value is returned: " + p.PathStr(path2)
 	}())
+}
+
+// linIv bounds a value by lo = loA*I + loB and hi = hiA*I + hiB for the
+// (positive) poll interval I.
+type linIv struct{ loA, loB, hiA, hiB float64 }
+
+// linBounds evaluates an integer/duration expression to such bounds: constants,
+// parameters bound in env, + and -, multiplication and division by a constant
+// (integer division contributes a rounding slack of one unit), unary minus,
+// conversions, rand.Intn-like calls (0 <= result < bound) and module helpers
+// with a single return (parameters bound to the bounds of the arguments).
+func linBounds(v ssa.Value, env map[*ssa.Parameter]linIv, depth int) (linIv, bool) {
+	if depth > 12 {
+		return linIv{}, false
+	}
+	for {
+		switch x := v.(type) {
+		case *ssa.Convert:
+			v = x.X
+			continue
+		case *ssa.ChangeType:
+			v = x.X
+			continue
+		}
+		break
+	}
+	cst := func(b linIv) (float64, bool) {
+		if b.loA == 0 && b.hiA == 0 && b.loB == b.hiB {
+			return b.loB, true
+		}
+		return 0, false
+	}
+	scale := func(b linIv, k float64) linIv {
+		r := linIv{b.loA * k, b.loB * k, b.hiA * k, b.hiB * k}
+		if k < 0 {
+			r = linIv{b.hiA * k, b.hiB * k, b.loA * k, b.loB * k}
+		}
+		return r
+	}
+	switch x := v.(type) {
+	case *ssa.Const:
+		if k, ok := eng.ConstInt(x); ok {
+			return linIv{0, float64(k), 0, float64(k)}, true
+		}
+	case *ssa.Parameter:
+		if b, ok := env[x]; ok {
+			return b, true
+		}
+	case *ssa.UnOp:
+		if x.Op == token.SUB {
+			if b, ok := linBounds(x.X, env, depth+1); ok {
+				return scale(b, -1), true
+			}
+		}
+	case *ssa.BinOp:
+		a, ok1 := linBounds(x.X, env, depth+1)
+		b, ok2 := linBounds(x.Y, env, depth+1)
+		if !ok1 || !ok2 {
+			return linIv{}, false
+		}
+		switch x.Op {
+		case token.ADD:
+			return linIv{a.loA + b.loA, a.loB + b.loB, a.hiA + b.hiA, a.hiB + b.hiB}, true
+		case token.SUB:
+			return linIv{a.loA - b.hiA, a.loB - b.hiB, a.hiA - b.loA, a.hiB - b.loB}, true
+		case token.MUL:
+			if k, isK := cst(a); isK {
+				return scale(b, k), true
+			}
+			if k, isK := cst(b); isK {
+				return scale(a, k), true
+			}
+		case token.QUO:
+			if k, isK := cst(b); isK && k != 0 {
+				r := scale(a, 1/k)
+				r.loB--
+				r.hiB++
+				return r, true
+			}
+		}
+	case *ssa.Call:
+		cal := x.Call.StaticCallee()
+		if cal == nil {
+			return linIv{}, false
+		}
+		if cal.Pkg != nil && (cal.Pkg.Pkg.Path() == "math/rand" || cal.Pkg.Pkg.Path() == "math/rand/v2") && len(x.Call.Args) >= 1 {
+			switch cal.Name() {
+			case "Intn", "Int63n", "Int31n", "IntN", "Int64N", "Int32N":
+				a, ok := linBounds(x.Call.Args[len(x.Call.Args)-1], env, depth+1)
+				if !ok {
+					return linIv{}, false
+				}
+				return linIv{0, 0, a.hiA, a.hiB - 1}, true
+			}
+			return linIv{}, false
+		}
+		if !eng.IsHelper(x.Parent(), cal) || len(x.Call.Args) != len(cal.Params) {
+			return linIv{}, false
+		}
+		rets := eng.Returns(cal)
+		if len(rets) != 1 || len(eng.RetVals(rets[0])) != 1 {
+			return linIv{}, false
+		}
+		inner := map[*ssa.Parameter]linIv{}
+		for i, prm := range cal.Params {
+			if b, ok := linBounds(x.Call.Args[i], env, depth+1); ok {
+				inner[prm] = b
+			}
+		}
+		return linBounds(eng.RetVals(rets[0])[0], inner, depth+1)
+	}
+	return linIv{}, false
 }
